@@ -73,6 +73,12 @@ def sync_case(G, r, oc, reqs, pend):
     r.shuffle(na)
     r.shuffle(nb)
     a_text, b_text = make_doc(r, na), make_doc(r, nb)
+    # files saved with a UTF-8 signature (Visual Studio does that to C# sources): the three bytes are text like any other
+    if r.random() < 0.15:
+        b_text = "\ufeff// saved with signature\n" + b_text
+        oc.stat("destination_with_utf8_signature")
+    if r.random() < 0.1:
+        a_text = "\ufeff// saved with signature\n" + a_text
     with scratch() as base:
         d = os.path.join(base, r.choice(["d", "d/e"]))
         os.makedirs(d)
